@@ -11,37 +11,44 @@
 (*                               and must raise,                           *)
 (*   Expected                    Raise for a malformed filter, otherwise   *)
 (*                               the selected rows, projected.             *)
-(* Transcriptions of the code (source ranges of /repo/src/datashard):      *)
-(*   ParseCond, ParseOp          filters.py:39-88, 91-128                  *)
-(*   BuildCondition, Combine     filters.py:131-172, 175-201               *)
-(*   ReadVerify, ReadNoVerify    transaction.py:897-943                    *)
-(*   ScanTable                   transaction.py:945-996 (+ scan 998-1038)  *)
-(*   ScanBatches, IterFileBatches transaction.py:1066-1113, 1115-1161      *)
-(*   IterRecords                 transaction.py:1163-1186                  *)
+(* Transcriptions of the code (source ranges of /repo/src/datashard as of  *)
+(* /repo commit e9269c1):                                                  *)
+(*   ParseCond, CheckValueRaises filters.py:39-99, 102-125                 *)
+(*   ParseOp, Mapping            filters.py:128-165                        *)
+(*   BuildCondition, Combine     filters.py:168-209, 212-238               *)
+(*   ReadVerify, ReadNoVerify    transaction.py:917-972                    *)
+(*   ScanTable                   transaction.py:974-1027 (+ scan 1029-1069)*)
+(*   ScanBatches, IterFileBatches transaction.py:1097-1145, 1147-1193      *)
+(*   IterRecords                 transaction.py:1195-1218                  *)
 (* Theorems checked by TLC (MC_FilterSel):                                 *)
-(*   EngineMatchesReference, ParserConforms, StatsArms,                    *)
-(*   ApiConforms (holds on the repaired model, fails on the code as it is) *)
-(*   ApiConformsModuloKnown (the code as it is deviates ONLY in the two    *)
-(*   characterised defect classes).                                        *)
+(*   EngineMatchesReference, ParserConforms, StatsArms, and C12 itself:    *)
+(*   ApiConforms (every read program returns Expected).                    *)
 (*                                                                         *)
-(* Two constants model the code as it is versus a repair:                  *)
-(*   StatsPushdown = TRUE   the non-verify path of _read_datafile_table    *)
-(*       passes the predicate to pq.read_table(filters=...), whose         *)
-(*       row-group pruning trusts parquet min/max statistics; these skip   *)
-(*       NaN, so a row group {v, NaN} is dropped for  != v  /  not_in{v};  *)
-(*       and a float row group whose only value is zero has statistics     *)
-(*       (-0.0, +0.0), from which pyarrow concludes "x == -0.0" and folds  *)
-(*       is_in(-0.0, S) - a bitwise test - to false: the rows 0.0 are      *)
-(*       dropped for  in S  although 0.0 is in S.                          *)
-(*   ValidateFirst = FALSE  _scan_table returns before parsing the filter  *)
-(*       when the table has no data files, scan_batches builds the         *)
-(*       expression only after the "no files left" return, and the parser  *)
-(*       turns every condition that is not a 2-tuple (or None) into an     *)
-(*       equality value, leaving it to pyarrow to choke on it - which only *)
-(*       happens if some file is actually evaluated.                       *)
-(*     TRUE models the repair: the parser itself rejects non-scalar        *)
-(*       comparison values, non-iterable in/not_in values and container    *)
-(*       conditions, and parse + build precede every early return.         *)
+(* Two constants select the code version that is modelled.  The code as it *)
+(* is corresponds to StatsPushdown = FALSE, ValidateFirst = TRUE; the      *)
+(* other values model the code BEFORE the two repairs and are kept as      *)
+(* companions on which ApiConforms must fail (and on which                 *)
+(* ApiConformsModuloKnown shows that it fails only in the characterised    *)
+(* way).                                                                   *)
+(*   StatsPushdown = TRUE  (before 2813326) the non-verify path of         *)
+(*       _read_datafile_table passed the predicate to                      *)
+(*       pq.read_table(filters=...), whose row-group pruning trusts        *)
+(*       parquet min/max statistics; these skip NaN, so a row group        *)
+(*       {v, NaN} was dropped for  != v  /  not_in{v};  and a float row    *)
+(*       group whose only value is zero has statistics (-0.0, +0.0), from  *)
+(*       which pyarrow concludes "x == -0.0" and folds is_in(-0.0, S) - a  *)
+(*       bitwise test - to false: the rows 0.0 were dropped for  in S.     *)
+(*     FALSE (now): read the file, filter in memory, project.              *)
+(*   ValidateFirst = FALSE (before e9269c1) _scan_table returned before    *)
+(*       parsing the filter when the table had no data files, scan_batches *)
+(*       built the expression only after its "no files left" return, the   *)
+(*       parser turned every condition that is not a 2-tuple (or None)     *)
+(*       into an equality value - leaving it to pyarrow to choke on it,    *)
+(*       which only happens if some file is evaluated - and a str operand  *)
+(*       of in / not_in was iterated character by character.               *)
+(*     TRUE (now): _check_value and the container branch of                *)
+(*       parse_filter_dict reject those shapes, and parse + build precede  *)
+(*       every early return.                                               *)
 (***************************************************************************)
 EXTENDS Filter
 
@@ -86,7 +93,9 @@ ExpectedRows(files, exprs, proj) ==
 \* A condition shape: [k, op, opIsStr, vk, xs]
 \*   k  = "bare"  : {"col": value}; vk/xs describe the value
 \*        "pair"  : {"col": (op, value)}  (a tuple of length 2)
-\*   vk = "scalar" (xs = <<x>>), "none" (Python None), "seq" (list/tuple of scalars/None, xs),
+\*   vk = "scalar" (xs = <<x>>, a non-iterable Python scalar), "strscalar" (xs = <<x>>, a one-character str:
+\*        what a scalar is for a string column - Python can iterate it), "none" (Python None),
+\*        "seq" (list/tuple of scalars/None, xs),
 \*        "hetero" (a tuple/list mixing an operator string with values, e.g. (">", 5, 6) or [">", 5]),
 \*        "homog"  (a tuple/list of like-typed members used where a scalar belongs: (">",), (), (1,2,3), [1,2])
 \*   op = operator spelling (a string, or the printed form of a non-string when opIsStr = FALSE)
@@ -118,7 +127,7 @@ Lower(s) == IF s \in DOMAIN LowerTab THEN LowerTab[s] ELSE s
 
 RefCond(c) ==
   IF c.k = "bare" THEN
-      IF c.vk = "scalar" THEN WellFormed(<<PE("==", c.xs)>>) ELSE Malformed   \* None, tuples of other lengths, lists
+      IF c.vk \in {"scalar", "strscalar"} THEN WellFormed(<<PE("==", c.xs)>>) ELSE Malformed   \* None, tuples of other lengths, lists
   ELSE IF ~c.opIsStr THEN Malformed
   ELSE LET o == RefOpOf(Lower(c.op)) IN
     CASE o = "?" -> Malformed
@@ -126,19 +135,19 @@ RefCond(c) ==
                           THEN WellFormed(<<PE(">=", <<c.xs[1]>>), PE("<=", <<c.xs[2]>>)>>) ELSE Malformed
       [] o \in NullOps -> WellFormed(<<PE(o, <<>>)>>)          \* documented form: (op, True); the value carries no meaning
       [] o \in SetOps  -> IF c.vk = "seq" THEN WellFormed(<<PE(o, c.xs)>>) ELSE Malformed
-      [] OTHER -> IF c.vk = "scalar" THEN WellFormed(<<PE(o, c.xs)>>)
+      [] OTHER -> IF c.vk \in {"scalar", "strscalar"} THEN WellFormed(<<PE(o, c.xs)>>)
                   ELSE IF c.vk = "none" THEN WellFormed(<<PE(o, <<NULL>>)>>)   \* comparison with NULL: matches nothing
                   ELSE Malformed
 
 (* ================= transcription: filters.py parser ==================== *)
-\* filters.py:100-119
+\* filters.py:137-156
 Mapping ==
   ("==" :> "==") @@ ("=" :> "==") @@ ("eq" :> "==") @@ ("!=" :> "!=") @@ ("<>" :> "!=") @@ ("ne" :> "!=") @@
   ("<" :> "<") @@ ("lt" :> "<") @@ ("<=" :> "<=") @@ ("le" :> "<=") @@ (">" :> ">") @@ ("gt" :> ">") @@
   (">=" :> ">=") @@ ("ge" :> ">=") @@ ("in" :> "in") @@ ("not_in" :> "not_in") @@ ("not in" :> "not_in") @@
   ("notin" :> "not_in")
 
-\* filters.py:120-128 : key = op_str.lower() if str; mapping.get(key); None -> ValueError
+\* filters.py:157-165 : key = op_str.lower() if str; mapping.get(key); None -> ValueError
 ParseOp(op, isStr) ==
   LET key == IF isStr THEN Lower(op) ELSE op IN
   IF isStr /\ key \in DOMAIN Mapping THEN Mapping[key] ELSE "Raise"     \* a non-string key is in no str-keyed dict
@@ -148,6 +157,14 @@ ParseOp(op, isStr) ==
 TE(op, vk, xs) == [op |-> op, vk |-> vk, xs |-> xs]
 ElemKind(x) == IF x = NULL THEN "none" ELSE "scalar"
 
+\* filters.py:102-125 _check_value(column, op, value): does it raise ValueError?
+CheckValueRaises(o, vk) ==
+  IF o \in SetOps                                                   \* 108
+  THEN vk = "strscalar"                                             \* 111-115: a str (bytes) operand
+       \/ vk \in {"scalar", "none"}                                 \* 116-121: iter(value) raises TypeError
+  ELSE vk \in {"seq", "hetero", "homog"}                            \* 122-125: a container where a single value belongs
+
+\* ValidateFirst = FALSE removes line 75 and the branch 86-96 (the parser before e9269c1).
 ParseCond(c) ==
   IF c.k = "pair" THEN                                              \* 60: isinstance(condition, tuple) and len == 2
     LET low == IF c.opIsStr THEN Lower(c.op) ELSE c.op IN           \* 62
@@ -162,15 +179,20 @@ ParseCond(c) ==
         [stage |-> "ok", exprs |-> <<TE("is_not_null", "none", <<>>)>>]
     ELSE LET o == ParseOp(c.op, c.opIsStr) IN                       \* 74
          IF o = "Raise" THEN [stage |-> "parse", exprs |-> <<>>]
-         ELSE IF ValidateFirst /\ ((o \in SetOps /\ c.vk \in {"scalar", "none"}) \/ (o \in CmpOps /\ c.vk \in {"seq", "hetero", "homog"}))
-              THEN [stage |-> "parse", exprs |-> <<>>]            \* (repair) value kind checked by the parser
-         ELSE [stage |-> "ok", exprs |-> <<TE(o, c.vk, IF c.vk = "none" THEN <<NULL>> ELSE c.xs)>>]   \* 75
-  ELSE IF c.vk = "none" THEN [stage |-> "parse", exprs |-> <<>>]    \* 76-84: {"col": None} -> ValueError
-  ELSE IF ValidateFirst /\ c.vk \in {"seq", "hetero", "homog"} THEN [stage |-> "parse", exprs |-> <<>>]   \* (repair) container as condition
-  ELSE [stage |-> "ok", exprs |-> <<TE("==", c.vk, c.xs)>>]         \* 85-87: ANY other object becomes an equality value
+         ELSE IF ValidateFirst /\ CheckValueRaises(o, c.vk)         \* 75 _check_value
+              THEN [stage |-> "parse", exprs |-> <<>>]
+         ELSE [stage |-> "ok", exprs |-> <<TE(o, c.vk, IF c.vk = "none" THEN <<NULL>> ELSE c.xs)>>]   \* 76
+  ELSE IF c.vk = "none" THEN [stage |-> "parse", exprs |-> <<>>]    \* 77-85: {"col": None} -> ValueError
+  ELSE IF ValidateFirst /\ c.vk \in {"seq", "hetero", "homog"}      \* 86-96: tuple of another length, list, set, dict
+       THEN [stage |-> "parse", exprs |-> <<>>]
+  ELSE [stage |-> "ok", exprs |-> <<TE("==", c.vk, c.xs)>>]         \* 97-98: a scalar becomes an equality value
+                                                                    \* (before e9269c1: ANY other object did)
 
-\* filters.py:141-155: `for v in expr.value` on a non-iterable -> TypeError;
-\* filters.py:158-163: `field == value` makes pa.scalar(value): a tuple/list mixing str and int cannot be typed
+\* What _build_condition / pyarrow do with operand shapes the parser let through (reachable only when
+\* ~ValidateFirst; with the strict parser the stage of every malformed condition is "parse"):
+\* filters.py:178-192: `for v in expr.value` on a non-iterable -> TypeError; a str IS iterable: its characters
+\* become the value set (for a one-character str: the singleton of that very value);
+\* filters.py:195-200: `field == value` makes pa.scalar(value): a tuple/list mixing str and int cannot be typed
 \* (ArrowTypeError, platform).
 BuildRaises(e) == (e.op \in SetOps /\ e.vk \in {"scalar", "none"}) \/ e.vk = "hetero"
 \* Evaluating the built expression: there is no compare kernel for (column type, list<...>) (platform).
@@ -189,9 +211,12 @@ Understood(c) ==
   IF StageOf(c) # "ok" THEN Malformed
   ELSE WellFormed([i \in 1..Len(p.exprs) |-> PE(p.exprs[i].op, p.exprs[i].xs)])
 
+\* Defect D3 (part of ~ValidateFirst, i.e. before e9269c1): a str operand of in / not_in was not rejected but iterated.
+StrAsSet(c) == c.k = "pair" /\ c.opIsStr /\ RefOpOf(Lower(c.op)) \in SetOps /\ c.vk = "strscalar"
 \* THEOREM (per condition shape): the code accepts exactly the well-formed conditions, with the
-\* reference's meaning; every malformed condition raises at some stage when it is evaluated.
-ParserConformsAt(c) == Understood(c) = RefCond(c)
+\* reference's meaning; every malformed condition raises (now: in the parser)
+\* (before e9269c1: at some stage when evaluated, except the str operand of a set operator, which was reinterpreted).
+ParserConformsAt(c) == Understood(c) = RefCond(c) \/ (~ValidateFirst /\ StrAsSet(c))
 
 \* engine-level expression [col, op, lit] (lit: number/NULL for comparisons, set for in/not_in)
 ToExpr(col, pe) ==
@@ -211,24 +236,24 @@ Cmp3(op, v, l) == IF v = NULL \/ l = NULL THEN "N"
 \* pc.is_in(field, value_set) with a null-free value set: never null, false for a null input
 IsIn3(v, values) == B3(v # NULL /\ v \in values)
 
-\* filters.py:131-172 for one row value v
+\* filters.py:168-209 for one row value v
 BuildCondition(e, v) ==
-  CASE e.op \in CmpOps -> Cmp3(e.op, v, e.lit)                                        \* 158-163
-    [] e.op = "in" -> LET values == e.lit \ {NULL} IN                                \* 142
-                      IF values = {} THEN "F"                                        \* 143-145 pc.scalar(False)
-                      ELSE And3(IsIn3(v, values), IsValid3(v))                       \* 146
-    [] e.op = "not_in" -> LET values == e.lit \ {NULL} IN                            \* 149
-                      IF values = {} THEN IsValid3(v)                                \* 150-152
-                      ELSE And3(Not3(IsIn3(v, values)), IsValid3(v))                 \* 155
-    [] e.op = "is_null" -> IsNull3(v)                                                \* 166
-    [] e.op = "is_not_null" -> IsValid3(v)                                           \* 167
+  CASE e.op \in CmpOps -> Cmp3(e.op, v, e.lit)                                        \* 195-200
+    [] e.op = "in" -> LET values == e.lit \ {NULL} IN                                \* 179
+                      IF values = {} THEN "F"                                        \* 180-182 pc.scalar(False)
+                      ELSE And3(IsIn3(v, values), IsValid3(v))                       \* 183
+    [] e.op = "not_in" -> LET values == e.lit \ {NULL} IN                            \* 186
+                      IF values = {} THEN IsValid3(v)                                \* 187-189
+                      ELSE And3(Not3(IsIn3(v, values)), IsValid3(v))                 \* 192
+    [] e.op = "is_null" -> IsNull3(v)                                                \* 203
+    [] e.op = "is_not_null" -> IsValid3(v)                                           \* 204
 
-\* filters.py:188-201: combined = c1 & c2 & ...
+\* filters.py:225-238: combined = c1 & c2 & ...
 RECURSIVE Combine(_, _, _)
 Combine(row, exprs, i) ==
   IF i = 1 THEN BuildCondition(exprs[1], row[exprs[1].col])
   ELSE And3(Combine(row, exprs, i - 1), BuildCondition(exprs[i], row[exprs[i].col]))
-\* Table.filter / read_table(filters=) keep a row iff the mask is true (null and false are dropped);
+\* Table.filter keeps a row iff the mask is true (null and false are dropped);
 \* no expressions = no filter (compute_expr is None).
 EngineKeeps(row, exprs) == exprs = <<>> \/ Combine(row, exprs, Len(exprs)) = "T"
 
@@ -246,22 +271,22 @@ ProjPresent(proj, cols) == proj = ProjAll \/ Range(proj) \subseteq cols
 FileOut(files, f, keep(_), proj) ==
   LET rs == SelectSeq(RowSeq(files[f]), keep) IN Ok([i \in 1..Len(rs) |-> OutRec(files, f, rs[i], proj)])
 
-\* -- _read_datafile_table, verify path (919-935): read ALL columns, filter, THEN project.
+\* -- _read_datafile_table, verify path (939-955): read ALL columns, filter, THEN project.
 ReadVerify(files, f, exprs, proj) ==
-  LET present == Range(AllCols) IN                                                  \* 930 pq.read_table(BytesIO(raw))
-  IF ~ColsPresent(exprs, present) THEN Raise                                        \* 931-932 table.filter(compute_expr)
-  ELSE IF ~ProjPresent(proj, present) THEN Raise                                    \* 933-934 table.select(columns)
+  LET present == Range(AllCols) IN                                                  \* 950 pq.read_table(BytesIO(raw))
+  IF ~ColsPresent(exprs, present) THEN Raise                                        \* 951-952 table.filter(compute_expr)
+  ELSE IF ~ProjPresent(proj, present) THEN Raise                                    \* 953-954 table.select(columns)
   ELSE LET keep(r) == EngineKeeps(files[f][r], exprs) IN FileOut(files, f, keep, proj)
 
 \* parquet row-group statistics of a column: min/max over the non-NULL, non-NaN values
 \* (Filter!Bounds without its all-NaN arm: no statistics then).
 RGStats(file, cc) == LET b == Bounds(ColVals(file, cc)) IN IF b.has /\ IsNum(b.lo) THEN b ELSE NoBound
 
-\* pyarrow's dataset scanner simplifies the predicate against the guarantee lo <= x <= hi derived
-\* from the statistics and skips the row group when the result is "false" (platform behaviour,
-\* observed with pyarrow 24; re-checked by the binding).  The != and not_in arms are the ones
-\* that are blind to NaN, the `in` arm mishandles the signed-zero statistics of an all-zero float row
-\* group; every other refutation is result-neutral (StatsArmsAt).
+\* (Before 2813326) pyarrow's dataset scanner, reached through pq.read_table(filters=...), simplifies the
+\* predicate against the guarantee lo <= x <= hi derived from the statistics and skips the row group when the
+\* result is "false" (platform behaviour, observed with pyarrow 24; was re-checked by the binding).  The != and
+\* not_in arms are the ones that are blind to NaN, the `in` arm mishandles the signed-zero statistics of an
+\* all-zero float row group; every other refutation is result-neutral (StatsArmsAt).
 \* ZeroPt: the abstract point that is concretised as 0.0 in float/double columns (harness/values.py).
 ZeroPt == 2
 SignedZeroStats(st, isFloat) == isFloat /\ st.lo = ZeroPt /\ st.hi = ZeroPt     \* written as min = -0.0, max = +0.0
@@ -283,19 +308,22 @@ Refuted(file, e, floatCols) == StatsRefutes(e, RGStats(file, e.col), e.col \in f
 RowGroupSkipped(file, exprs, floatCols) ==
   StatsPushdown /\ \E i \in 1..Len(exprs) : Refuted(file, exprs[i], floatCols)
 
-\* -- _read_datafile_table, non-verify path (937-943): predicate pushdown into pq.read_table.
+\* -- _read_datafile_table, non-verify path (957-972): with a filter, read ALL columns, filter in memory,
+\*    THEN project - the same three steps as the verify path.  (StatsPushdown: before 2813326 the predicate
+\*    went into pq.read_table(columns=, filters=), which could skip the row group first.)
 ReadNoVerify(files, f, exprs, proj, floatCols) ==
-  IF ~ProjPresent(proj, Range(AllCols)) THEN Raise
-  ELSE IF exprs # <<>> THEN                                                         \* 939-942 read_table(columns=, filters=)
-      IF ~ColsPresent(exprs, Range(AllCols)) THEN Raise
-      ELSE IF RowGroupSkipped(files[f], exprs, floatCols) THEN Ok(<<>>)
-      ELSE LET keep(r) == EngineKeeps(files[f][r], exprs) IN FileOut(files, f, keep, proj)
-  ELSE LET keep(r) == TRUE IN FileOut(files, f, keep, proj)                         \* 943
+  IF exprs # <<>> THEN                                                              \* 959
+      IF RowGroupSkipped(files[f], exprs, floatCols) THEN Ok(<<>>)                  \* (only when StatsPushdown)
+      ELSE IF ~ColsPresent(exprs, Range(AllCols)) THEN Raise                        \* 967-968 read_table(src); table.filter
+      ELSE IF ~ProjPresent(proj, Range(AllCols)) THEN Raise                         \* 969-970 table.select(columns)
+      ELSE LET keep(r) == EngineKeeps(files[f][r], exprs) IN FileOut(files, f, keep, proj)   \* 971
+  ELSE IF ~ProjPresent(proj, Range(AllCols)) THEN Raise                             \* 972 read_table(src, columns=columns)
+  ELSE LET keep(r) == TRUE IN FileOut(files, f, keep, proj)
 
 ReadOne(files, f, exprs, proj, verify, floatCols) ==
-  IF verify THEN ReadVerify(files, f, exprs, proj) ELSE ReadNoVerify(files, f, exprs, proj, floatCols)   \* 919 (every file has a checksum)
+  IF verify THEN ReadVerify(files, f, exprs, proj) ELSE ReadNoVerify(files, f, exprs, proj, floatCols)   \* 939 (every file has a checksum)
 
-\* -- prune_files_by_bounds as called at 977-980 / 1100-1103: Filter!MayMatch (the != float guard is in
+\* -- prune_files_by_bounds as called at 1008-1011 / 1133-1136: Filter!MayMatch (the != float guard is in
 \*    the code: Guard = TRUE).  A None literal makes the comparison raise TypeError -> "cannot prune".
 MayMatchSel(file, exprs, floatCols) ==
   \A i \in 1..Len(exprs) :
@@ -307,44 +335,44 @@ KeptFiles(files, exprs, floatCols) ==
 Collect(parts) == IF \E i \in 1..Len(parts) : parts[i].raise THEN Raise ELSE Ok(Flatten([i \in 1..Len(parts) |-> parts[i].out]))
 
 \* A filter as the scan sees it: flt = [stage, exprs]; stage = where parse/build/evaluate raises.
-\* -- _scan_table 945-996 (scan 998-1038 adds to_pylist).  `parallel` only changes who calls read_one;
-\*    executor.map keeps file order (989-994), so it is not a parameter of the model.
+\* -- _scan_table 974-1027 (scan 1029-1069 adds to_pylist).  `parallel` only changes who calls read_one;
+\*    executor.map keeps file order (1020-1025), so it is not a parameter of the model.
 ScanTable(files, flt, proj, verify, floatCols) ==
-  IF ~ValidateFirst /\ Len(files) = 0 THEN Ok(<<>>)                                 \* 969-971 `if not data_files: return None`
-  ELSE IF flt.stage = "parse" THEN Raise                                            \* 973 parse_filter_dict
-  ELSE IF flt.stage = "build" THEN Raise                                            \* 974 to_pyarrow_compute_expression
-  ELSE IF Len(files) = 0 THEN Ok(<<>>)                                              \* (repaired order)
-  ELSE LET kept == KeptFiles(files, flt.exprs, floatCols) IN                        \* 977-980
-       IF kept = <<>> THEN Ok(<<>>)                                                 \* 981-982
-       ELSE IF flt.stage = "exec" THEN Raise                                        \* 986-994 read_one evaluates the expression
-       ELSE Collect([i \in 1..Len(kept) |-> ReadOne(files, kept[i], flt.exprs, proj, verify, floatCols)])   \* 996 concat_tables
+  IF ~ValidateFirst /\ Len(files) = 0 THEN Ok(<<>>)                                 \* (before e9269c1: the emptiness return came first)
+  ELSE IF flt.stage = "parse" THEN Raise                                            \* 1000 parse_filter_dict
+  ELSE IF flt.stage = "build" THEN Raise                                            \* 1001 to_pyarrow_compute_expression
+  ELSE IF Len(files) = 0 THEN Ok(<<>>)                                              \* 1003-1005 `if not data_files: return None`
+  ELSE LET kept == KeptFiles(files, flt.exprs, floatCols) IN                        \* 1008-1011
+       IF kept = <<>> THEN Ok(<<>>)                                                 \* 1012-1013
+       ELSE IF flt.stage = "exec" THEN Raise                                        \* 1017-1025 read_one evaluates the expression
+       ELSE Collect([i \in 1..Len(kept) |-> ReadOne(files, kept[i], flt.exprs, proj, verify, floatCols)])   \* 1027 concat_tables
 
-\* -- _iter_file_batches 1115-1161, one file: batches of bs rows, each filtered then projected.
+\* -- _iter_file_batches 1147-1193, one file: batches of bs rows, each filtered then projected.
 Min(x, y) == IF x <= y THEN x ELSE y
 Chunks(s, bs) == [k \in 1..((Len(s) + bs - 1) \div bs) |-> SubSeq(s, (k - 1) * bs + 1, Min(k * bs, Len(s)))]
 IterFileBatches(files, f, flt, proj, bs) ==
-  LET readCols == IF flt.exprs # <<>> THEN Range(AllCols)                            \* 1134 read_columns = None if filtering
+  LET readCols == IF flt.exprs # <<>> THEN Range(AllCols)                            \* 1166 read_columns = None if filtering
                   ELSE IF proj = ProjAll THEN Range(AllCols) ELSE Range(proj)          \*      else columns
-      batches == Chunks(RowSeq(files[f]), bs)                                        \* 1150 pf.iter_batches(batch_size, read_columns)
+      batches == Chunks(RowSeq(files[f]), bs)                                        \* 1182 pf.iter_batches(batch_size, read_columns)
   IN  IF ~ProjPresent(proj, Range(AllCols)) THEN Raise
       ELSE IF batches = <<>> THEN Ok(<<>>)                                             \* an empty file yields no batch: nothing is evaluated
-      ELSE IF flt.stage = "exec" THEN Raise                                          \* 1155-1156 table.filter(compute_expr)
+      ELSE IF flt.stage = "exec" THEN Raise                                          \* 1187-1188 table.filter(compute_expr)
       ELSE IF ~ColsPresent(flt.exprs, readCols) THEN Raise
       ELSE Ok(Flatten([k \in 1..Len(batches) |->
-             LET rs == SelectSeq(batches[k], LAMBDA r : EngineKeeps(files[f][r], flt.exprs))   \* 1155-1156
-             IN [i \in 1..Len(rs) |-> OutRec(files, f, rs[i], proj)]]))                        \* 1157-1158 select(columns); 1160-1161
+             LET rs == SelectSeq(batches[k], LAMBDA r : EngineKeeps(files[f][r], flt.exprs))   \* 1187-1188
+             IN [i \in 1..Len(rs) |-> OutRec(files, f, rs[i], proj)]]))                        \* 1189-1190 select(columns); 1192-1193
 
-\* -- scan_batches 1066-1113 (a generator: everything happens at the first next()).
-\*    verify only changes how the bytes are obtained (1137-1148), never the rows.
+\* -- scan_batches 1097-1145 (a generator: everything happens at the first next()).
+\*    verify only changes how the bytes are obtained (1169-1180), never the rows.
 ScanBatches(files, flt, proj, bs, floatCols) ==
-  IF flt.stage = "parse" THEN Raise                                                 \* 1099 parse_filter_dict
-  ELSE LET kept == KeptFiles(files, flt.exprs, floatCols) IN                        \* 1100-1103
-       IF ValidateFirst /\ flt.stage = "build" THEN Raise                           \* (repaired order)
-       ELSE IF kept = <<>> THEN Ok(<<>>)                                            \* 1105-1106
-       ELSE IF flt.stage = "build" THEN Raise                                       \* 1108
-       ELSE Collect([i \in 1..Len(kept) |-> IterFileBatches(files, kept[i], flt, proj, bs)])   \* 1111-1113
+  IF flt.stage = "parse" THEN Raise                                                 \* 1129 parse_filter_dict
+  ELSE IF ValidateFirst /\ flt.stage = "build" THEN Raise                           \* 1130 to_pyarrow_compute_expression
+  ELSE LET kept == KeptFiles(files, flt.exprs, floatCols) IN                        \* 1132-1136
+       IF kept = <<>> THEN Ok(<<>>)                                                 \* 1138-1139
+       ELSE IF flt.stage = "build" THEN Raise                                       \* (before e9269c1: built only here)
+       ELSE Collect([i \in 1..Len(kept) |-> IterFileBatches(files, kept[i], flt, proj, bs)])   \* 1143-1145
 
-IterRecords(files, flt, proj, floatCols) == ScanBatches(files, flt, proj, 1000, floatCols)     \* 1182-1186
+IterRecords(files, flt, proj, floatCols) == ScanBatches(files, flt, proj, 1000, floatCols)     \* 1214-1218
 
 (* ========================= property C12 ================================ *)
 \* The distinct read programs.  scan(parallel=...) runs ScanTable (see there); iter_records is
@@ -367,7 +395,8 @@ ApiConformsAt(files, refMalformed, refExprs, flt, proj, floatCols) ==
   LET exp == Expected(files, refMalformed, refExprs, proj) IN
   \A api \in Apis : Outcome(api, files, flt, proj, floatCols) = exp
 
-\* Characterisation of the defects of the code as it is.
+\* Characterisation of the defects of the code as it WAS (companion configurations only; with
+\* StatsPushdown = FALSE and ValidateFirst = TRUE none of D1-D3 can hold and ApiConformsModuloKnown = ApiConforms).
 \* D1  rows lost ONLY on scan(verify_checksums=False), ONLY rows of row groups that the statistics
 \*     refute (StatsArms says which rows these can be: NaN rows under != / not_in, and zero rows
 \*     of an all-zero float row group under in); nothing extra is ever returned.
@@ -382,11 +411,19 @@ DefectD1(api, got, exp, files, exprs, floatCols) ==
 \* D2  a malformed filter is accepted (empty answer, never rows) only when no file is evaluated.
 DefectD2(got, exp) == ~ValidateFirst /\ exp.raise /\ ~got.raise /\ got.out = <<>>
 
-ApiConformsModuloKnownAt(files, refMalformed, refExprs, flt, proj, floatCols) ==
+\* D3  a str operand of in / not_in: every read program answers the reinterpreted question
+\*     (value set = the characters) instead of raising.
+DefectD3(got, exp, strAsSet, files, flt, proj) ==
+  ~ValidateFirst /\ strAsSet /\ exp.raise /\ got = Ok(ExpectedRows(files, flt.exprs, proj))
+
+ApiConformsModuloKnownAt(files, refMalformed, refExprs, flt, proj, floatCols, strAsSet) ==
   LET exp == Expected(files, refMalformed, refExprs, proj) IN
   \A api \in Apis :
      LET got == Outcome(api, files, flt, proj, floatCols)
-     IN got = exp \/ DefectD1(api, got, exp, files, refExprs, floatCols) \/ DefectD2(got, exp)
+     IN \/ got = exp
+        \/ DefectD1(api, got, exp, files, refExprs, floatCols)
+        \/ DefectD2(got, exp)
+        \/ DefectD3(got, exp, strAsSet, files, flt, proj)
 
 \* What the statistics arms can get wrong: whenever an expression is refuted for a file, a row of that
 \* file satisfies it only if (a) the arm is != / not_in and the row's value is NaN, or (b) the arm is
